@@ -1,5 +1,6 @@
 (* C13 — subset (resolver) and the kube EventHandler. *)
 From Coq Require Import List ZArith Bool Lia Permutation.
+From GZgen Require Import C13Consts.
 From GZ Require Import C13.Model C13.Proofs.
 Import ListNotations.
 Open Scope Z_scope.
@@ -117,10 +118,12 @@ Proof. constructor; cbn; [constructor | constructor | tauto]. Qed.
 (* the effect of one handler call on the endpoint set, and when it publishes *)
 Definition kset_after (e : kev) (old : list Z) (ip : Z) : Prop :=
   match e with
-  | KAdd o => In ip old \/ In ip (ips o)
+  | KAdd o => if gen_kubeOnAddReplaces then In ip (ips o) else In ip old \/ In ip (ips o)
   | KDelete o => In ip old /\ ~ In ip (ips o)
   | KOnUpdate o1 o2 => if orv o1 =? orv o2 then In ip old else In ip (ips o2)
   | KUpdate o => In ip (ips o)
+  | KOther => In ip old
+  | KTombstone _ => In ip old
   end.
 
 Lemma k_update_spec : forall o s, kinv s ->
@@ -148,8 +151,9 @@ Lemma kstep_spec : forall s e, kinv s ->
   ((kcount (kstep s e) = kcount s /\ forall ip, In ip (kend (kstep s e)) <-> In ip (kend s)) \/
    (kcount (kstep s e) = kcount s + 1 /\ klast (kstep s e) = kend (kstep s e))).
 Proof.
-  intros s e I. pose proof I as [He Hl Hs]. destruct e as [o|o|o1 o2|o]; cbn [kstep kset_after].
-  - destruct (kadd_all_spec (ips o) (kend s) false He) as [A [B C]].
+  intros s e I. pose proof I as [He Hl Hs]. destruct e as [o|o|o1 o2|o| |o]; cbn [kstep kset_after].
+  - destruct gen_kubeOnAddReplaces; [apply k_update_spec; exact I|].
+    destruct (kadd_all_spec (ips o) (kend s) false He) as [A [B C]].
     destruct (kadd_all (ips o) (kend s) false) as [n ch] eqn:E. cbn [fst snd] in *.
     destruct ch; cbn.
     + split; [constructor; cbn; [exact A | exact A | tauto]|]. split; [exact B|]. right. split; reflexivity.
@@ -165,19 +169,24 @@ Proof.
     + split; [exact I|]. split; [tauto|]. left. split; [reflexivity | tauto].
     + apply k_update_spec. exact I.
   - apply k_update_spec. exact I.
+  - split; [exact I|]. split; [tauto|]. left. split; [reflexivity | tauto].
+  - split; [exact I|]. split; [tauto|]. left. split; [reflexivity | tauto].
 Qed.
 
 (* ------------------------------------------------------------------ kube: well-formed histories *)
-(* events about the one selected Endpoints object, in informer order: OnAdd / OnDelete
-   carry an object that covers the current addresses (OnAdd: the object appears, or is
-   listed again, possibly grown; OnDelete: its last known state); an OnUpdate with equal
+(* events about the one selected Endpoints object, in informer order: OnDelete carries an
+   object that covers the current addresses (its last known state); OnAdd likewise (the
+   object appears, or is listed again, possibly grown) UNLESS OnAdd replaces the set
+   ([gen_kubeOnAddReplaces], read off the source: then any OnAdd is fine); an OnUpdate with equal
    resource versions (resync) carries the same addresses *)
 Definition kwf (t : list Z) (e : kev) : Prop :=
   match e with
-  | KAdd o => incl t (ips o)
+  | KAdd o => gen_kubeOnAddReplaces = true \/ incl t (ips o)
   | KDelete o => incl t (ips o)
   | KOnUpdate o1 o2 => orv o1 = orv o2 -> forall ip, In ip (ips o2) <-> In ip t
   | KUpdate _ => True
+  | KOther => True            (* says nothing about the endpoints *)
+  | KTombstone _ => False     (* a delete the handler does not see: outside the alphabet *)
   end.
 
 Fixpoint kwf_run (t : list Z) (l : list kev) : Prop :=
@@ -191,12 +200,16 @@ Lemma kstep_truth : forall s t e, kinv s -> kwf t e ->
   forall ip, In ip (kend (kstep s e)) <-> In ip (ktruth_step t e).
 Proof.
   intros s t e I W H ip. destruct (kstep_spec s e I) as [_ [B _]]. rewrite B.
-  destruct e as [o|o|o1 o2|o]; cbn [kset_after ktruth_step kwf] in *.
-  - rewrite H. split; [intros [H1|H1]; [apply W; exact H1 | exact H1] | tauto].
+  destruct e as [o|o|o1 o2|o| |o]; cbn [kset_after ktruth_step kwf] in *.
+  - destruct gen_kubeOnAddReplaces; [tauto|].
+    destruct W as [W|W]; [discriminate|].
+    rewrite H. split; [intros [H1|H1]; [apply W; exact H1 | exact H1] | tauto].
   - rewrite H. split; [intros [H1 H2]; apply H2, W, H1 | intros []].
   - destruct (orv o1 =? orv o2) eqn:E; [|tauto].
     apply Z.eqb_eq in E. rewrite H. symmetry. apply W. exact E.
   - tauto.
+  - apply H.
+  - destruct W.
 Qed.
 
 Lemma krun_gen : forall l s t, kinv s -> kwf_run t l ->
